@@ -492,6 +492,9 @@ pub(super) fn scripts_for(prop: &str, which: &str, tier: Tier) -> (u64, Vec<Viol
             }
             let use_sets: Vec<Vec<usize>> = if which == "projected-weights" {
                 if n_rows <= 2 { sequences(USES.len(), n_rows, n_rows) } else { (0..USES.len()).map(|u| vec![u; n_rows]).chain([vec![1, 0, 2], vec![2, 1, 3], vec![4, 0, 1]]).collect() }
+            } else if which == "accounting" {
+                // sites added as they come, and every site retracted (weight -1)
+                vec![vec![0; n_rows], vec![2; n_rows]]
             } else {
                 vec![vec![0; n_rows]]
             };
@@ -526,6 +529,102 @@ pub(super) fn replay_script(case: &J) -> Option<Vec<String>> {
     let symbols = script_symbols();
     let syms: Vec<Sym> = case.get("symbols")?.as_usizes()?.iter().map(|i| symbols[*i]).collect();
     Some(eval_script(&setup, &project, &syms, &case.get("uses")?.as_usizes()?).into_iter().map(|(k, w, _)| format!("{k} :: {w}")).collect())
+}
+
+/// create(a) + create(b) = create(a || b) for a cohort under projection where part a fills one cell
+/// with thousands of sites and part b adds tiny tail probabilities to the same cell (and the other way
+/// round): what a site adds does not depend on what the cell already holds.
+fn eval_cohort_split(n_samples: usize, individuals: usize, k: usize, order_ab: bool, scratch: &Scratch) -> Option<Viol> {
+    let mk = |invariant: bool, from: usize, to: usize| -> Vec<(usize, Vec<String>)> {
+        (from..to)
+            .map(|i| {
+                let gts: Vec<String> = (0..n_samples)
+                    .map(|j| {
+                        if invariant {
+                            "0/0".to_string()
+                        } else {
+                            // about five eighths of the chromosomes derived
+                            ["1/1", "0/1", "1|1", "0|1", "0/0", "1/1", "1|0", "0/0"][(j + i) % 8].to_string()
+                        }
+                    })
+                    .collect();
+                (1000 + i, gts)
+            })
+            .collect()
+    };
+    let render = |recs: &[(usize, Vec<String>)]| -> Vec<u8> {
+        let mut cs = CallSet::new(n_samples);
+        for (pos, gts) in recs {
+            cs.push_gts(gts);
+            let last = cs.records.len() - 1;
+            cs.records[last].pos = *pos;
+        }
+        to_vcf(&cs).0
+    };
+    let a = mk(true, 0, k);
+    let b = mk(false, k, 2 * k);
+    let whole: Vec<(usize, Vec<String>)> = if order_ab { a.iter().chain(&b).cloned().collect() } else { b.iter().chain(&a).cloned().collect() };
+    let ps = individuals.to_string();
+    let run = |bytes: &[u8]| parse_out(&run_sfs(&["create", "-p", &ps, "--precision", "12"], Stdin::Bytes(bytes), scratch));
+    let (ra, rb, rw) = (run(&render(&a)), run(&render(&b)), run(&render(&whole)));
+    let ok = match (&ra, &rb, &rw) {
+        (Ok(x), Ok(y), Ok(w)) => w.shape == x.shape && w.data.iter().zip(x.data.iter().zip(&y.data)).all(|(w, (x, y))| (w - (x + y)).abs() <= 1e-9 * (x + y).abs() + 1e-11),
+        _ => false,
+    };
+    if ok {
+        return None;
+    }
+    let brief = |r: &Result<RefArray, String>| match r {
+        Ok(x) => format!("first cells {:?}", &x.data[..x.data.len().min(3)]),
+        Err(e) => e.chars().take(200).collect(),
+    };
+    Some((
+        "C11|cli|cohort-split-not-additive".to_string(),
+        format!("{n_samples} samples, -p {individuals}: {k} invariant records {} {k} records with most alleles derived: whole ({}) != parts ({}) + ({})", if order_ab { "followed by" } else { "preceded by" }, brief(&rw), brief(&ra), brief(&rb)),
+        J::obj([("kind", J::s("c11-cohort-split")), ("samples", J::u(n_samples)), ("individuals", J::u(individuals)), ("records_per_part", J::u(k)), ("order_ab", J::Bool(order_ab))]),
+    ))
+}
+
+/// The real VCF reader behind the site reader, with one record damaged (a position that is not a
+/// number): the damaged record is an error, and every other record is delivered exactly as in the
+/// undamaged file - in particular the one right after it.
+fn eval_after_corrupt_record(bad: usize, project: bool) -> Option<Viol> {
+    use sfs_core::input::genotype;
+    let ks = kinds();
+    let picks = [1usize, 5, 8, 9, 12, 13];
+    let rows: Vec<&Vec<Cls>> = picks.iter().map(|k| &ks[*k].1).collect();
+    let text = String::from_utf8_lossy(&vcf_of(&rows, false)).to_string();
+    let mut lines: Vec<String> = text.lines().map(String::from).collect();
+    let first_record = lines.iter().position(|l| !l.starts_with('#'))?;
+    let fields: Vec<&str> = lines[first_record + bad].split('\t').collect();
+    let mut damaged: Vec<String> = fields.iter().map(|f| f.to_string()).collect();
+    damaged[1] = "12x".to_string();
+    lines[first_record + bad] = damaged.join("\t");
+    let bytes = (lines.join("\n") + "\n").into_bytes();
+    let shape: Option<Vec<usize>> = if project { Some(vec![3, 3]) } else { None };
+    let expect_rows: Vec<Vec<Cls>> = picks.iter().enumerate().filter(|(i, _)| *i != bad).map(|(_, k)| ks[*k].1.clone()).collect();
+    let expect = ref_create(&expect_rows, &MAP, shape.as_ref().map(|s| s.iter().map(|x| x - 1).collect::<Vec<_>>()).as_deref());
+    let got = catch(|| {
+        let g = genotype::reader::Builder::default().verif_build_from_reader(std::io::Cursor::new(bytes)).map_err(|e| e.to_string())?;
+        let mut site = build_site_reader(g, &MAP, shape.as_deref())?;
+        run_script(&mut site, picks.len() + 2, &[])
+    });
+    let ok = match &got {
+        Ok(Ok((spectrum, seen))) => {
+            seen.iter().filter(|s| **s == Seen::Error).count() == 1
+                && seen.iter().filter(|s| matches!(s, Seen::Counted | Seen::Insufficient)).count() == picks.len() - 1
+                && spectrum.data.iter().zip(&expect.spectrum.data).all(|(a, b)| (a - b).abs() <= 1e-9)
+        }
+        _ => false,
+    };
+    if ok {
+        return None;
+    }
+    Some((
+        format!("C11|lib|after-corrupt-record|{}", if project { "project" } else { "no-projection" }),
+        format!("a 6-record VCF whose record {bad} has a malformed position, read on after the error: {:?}; expected one error, five delivered records and the spectrum {:?}", got.as_ref().map(|r| r.as_ref().map(|(s, seen)| (seen.clone(), s.data.clone()))), expect.spectrum.data),
+        J::obj([("kind", J::s("c11-corrupt")), ("bad", J::u(bad)), ("project", J::Bool(project))]),
+    ))
 }
 
 pub fn run(tier: Tier) -> i32 {
@@ -628,6 +727,27 @@ pub fn run(tier: Tier) -> i32 {
             note: format!("every sequence of 1..{max_len} symbols over {{six record kinds, a record with a non-diploid genotype in the first / third column, a transient I/O error of the source, the source reporting its end early, a change of the column layout}} x the ways of using the sites handed out {{add, drop, weight -1, weight 0.5, weight 3 then 2}} x 6 set-ups, read_site called two more times than there are steps: every call returns what its own step implies and the spectrum is the weighted sum of the rows' own contributions ({} scripts)", jobs.len()),
             exhaustive: true,
             extra: vec![("depth_bound".into(), J::u(max_len))],
+        });
+    }
+    // the real VCF reader: a malformed record at each position, the caller reads on
+    {
+        let mut n = 0u64;
+        for bad in 0..6usize {
+            for project in [false, true] {
+                n += 1;
+                if let Some((k, w, j)) = eval_after_corrupt_record(bad, project) {
+                    rep.violation(k, w, j);
+                }
+            }
+        }
+        rep.transitions += 8 * n;
+        rep.part(Part {
+            name: "lib: reading on after a malformed VCF record".into(),
+            evaluations: n,
+            nontrivial: n,
+            note: "a 6-record VCF through the real VCF reader and site reader, each record in turn given a malformed position, with and without projection, read_site called until the end: exactly one error, the other five records delivered, the spectrum of those five".into(),
+            exhaustive: true,
+            extra: vec![],
         });
     }
     // L2
@@ -739,6 +859,25 @@ pub fn run(tier: Tier) -> i32 {
             evaluations: 3 * lj.len() as u64,
             nontrivial: 3 * lj.len() as u64,
             note: format!("parts of {ks_parts:?} records each (the shortest fit one BGZF block each, their concatenation needs two) x 4 containers x {{default threads, --threads 1, --threads 3}} x {{no projection, --project-shape 3,3}}: create(a) + create(b) = create(a||b)"),
+            exhaustive: true,
+            extra: vec![],
+        });
+    }
+    // a cohort under projection: thousands of invariant sites in one cell next to sites that add tiny tail
+    // probabilities to it, in both orders
+    {
+        let k = tier.pick(6000usize, 20_000usize);
+        let k_big = tier.pick(20_000usize, 60_000usize);
+        let cj: Vec<(usize, usize, bool, usize)> = vec![(20, 5, true, k), (20, 5, false, k), (100, 50, true, k_big), (100, 50, false, k_big)];
+        let res = par_map(cj.len(), |i| eval_cohort_split(cj[i].0, cj[i].1, cj[i].3, cj[i].2, &scratch));
+        for v in res.into_iter().flatten() {
+            rep.violation(v.0, v.1, v.2);
+        }
+        rep.part(Part {
+            name: "cli: cohort parts of very different magnitude".into(),
+            evaluations: 3 * cj.len() as u64,
+            nontrivial: 3 * cj.len() as u64,
+            note: format!("20 samples projected to 5 individuals ({k} + {k} records) and 100 to 50 ({k_big} + {k_big} records): invariant records and records with five eighths of the alleles derived, in both orders: create(a||b) = create(a) + create(b) to 1e-9 relative in every cell (a contribution of 1e-6 to a cell that holds thousands is not dropped)"),
             exhaustive: true,
             extra: vec![],
         });
@@ -912,6 +1051,11 @@ pub fn replay(case: &J) -> Option<Vec<String>> {
             Some(out)
         }
         "c11-script" => replay_script(case),
+        "c11-corrupt" => Some(eval_after_corrupt_record(case.get("bad")?.as_i64()? as usize, matches!(case.get("project"), Some(J::Bool(true)))).into_iter().map(|(k, w, _)| format!("{k} :: {w}")).collect()),
+        "c11-cohort-split" => {
+            let scratch = Scratch::new("c11r");
+            Some(eval_cohort_split(case.get("samples")?.as_i64()? as usize, case.get("individuals")?.as_i64()? as usize, case.get("records_per_part")?.as_i64()? as usize, matches!(case.get("order_ab"), Some(J::Bool(true))), &scratch).into_iter().map(|(k, w, _)| format!("{k} :: {w}")).collect())
+        }
         "c11-long-split" => {
             let scratch = Scratch::new("c11r");
             Some(
